@@ -3,7 +3,7 @@
    stages of parseSpecs) under every interleaving of the goroutines. *)
 From Coq Require Import List NArith Arith Bool ZArith.
 Import ListNotations.
-Require Import Verif.Imports.Rules Verif.Imports.Collect Verif.Imports.Faults Verif.Imports.FaultsProps
+Require Import Verif.Imports.Rules Verif.Imports.Collect Verif.Imports.Faults Verif.Imports.FaultsProps Verif.Imports.FaultsProgress
                Verif.Imports.CurrentFaults Verif.Gen.ImportRules Verif.Gen.Guards Verif.Total.Pipeline.
 
 (* the source still has the shape the model was transliterated from *)
@@ -50,3 +50,18 @@ Theorem C06_error_chain_examples :
    fquiescent s = true /\ foutcome current_rules fl_read3 0%N 0 s = Error (EWrap 0 (EWrap 2 (EReadFail 3)))%N).
 Proof. exact error_chain_examples_current. Qed.
 Print Assumptions C06_error_chain_examples.
+
+(* NEVER A HANG (model): for a finite import graph, whatever the faults and the limit, every schedule of at
+   least fstep_bound choices ends with no goroutine left; and in every well-formed state with goroutines left
+   one of them can run (no deadlock: a goroutine in g.Wait() always has a child that is still there) *)
+Theorem C06_faults_terminate : forall g fl maxd root univ sched,
+  In root univ -> (forall f k, In f univ -> In k (g f) -> In k univ) ->
+  fstep_bound g univ <= length sched -> ftasks (frun current_rules g fl maxd root sched) = [].
+Proof. exact faults_terminate_current. Qed.
+Print Assumptions C06_faults_terminate.
+
+Theorem C06_no_deadlock : forall g fl maxd root univ s,
+  In root univ -> (forall f k, In f univ -> In k (g f) -> In k univ) ->
+  reachable_cur g fl maxd root s -> ftasks s <> [] -> exists t, In t (ftasks s) /\ runnable t = true.
+Proof. exact no_deadlock_current. Qed.
+Print Assumptions C06_no_deadlock.
